@@ -81,10 +81,12 @@ def front_cases():
     """(kind, outcome, N, W, lam_kind, beta_kind, eps)"""
     out = []
     for kind in ("single", "joint"):
-        for outcome in ("success", "no_donor", "fault0", "fault1", "wrong_kind"):
+        for outcome in ("success", "no_donor", "fault0", "fault1", "wrong_kind", "int_data", "f32_data", "neg_beta"):
             for (lam_kind, beta_kind) in (("matrix", "vector"), ("scalar", "vector"), ("matrix", "scalar")):
                 for eps in (0, 1e-2):
-                    if outcome in ("wrong_kind", "no_donor") and (eps or lam_kind == "scalar"):
+                    if outcome in ("wrong_kind", "no_donor", "int_data", "f32_data", "neg_beta") and (eps or lam_kind == "scalar"):
+                        continue
+                    if outcome == "neg_beta" and beta_kind != "vector":
                         continue
                     out.append((kind, outcome, lam_kind, beta_kind, eps))
     return out
@@ -120,6 +122,21 @@ def build_front(kind, outcome, lam_kind, beta_kind, eps, order, readonly):
         fault = (0, 1, InjectedFault("injected at round 0, cluster 1"))
     elif outcome == "fault1":
         fault = (1, 0, InjectedFault("injected at round 1, cluster 0"))
+    elif outcome in ("int_data", "f32_data"):
+        # series of another real dtype: the caller's list must keep holding the caller's own arrays
+        dt = np.int64 if outcome == "int_data" else np.float32
+        def conv(a):
+            b = np.array(np.round(np.asarray(a) * 8), dtype=dt, order="F" if order == "F" else "C")
+            if readonly:
+                b.setflags(write=False)
+            return b
+        args["data"] = [conv(x) for x in args["data"]] if kind == "joint" else conv(args["data"])
+    elif outcome == "neg_beta":
+        v = np.array(args["label_switching_cost"], dtype=np.float64)
+        v[1] = -0.5
+        if readonly:
+            v.setflags(write=False)
+        args["label_switching_cost"] = v
     elif outcome == "wrong_kind":
         if kind == "single":
             args["data"] = [form(s1, order, readonly), form(s2, order, readonly)]     # a list to ticc_labels
@@ -130,7 +147,7 @@ def build_front(kind, outcome, lam_kind, beta_kind, eps, order, readonly):
 
 
 EXPECT = {"success": "ok", "no_donor": RuntimeError, "fault0": InjectedFault, "fault1": InjectedFault,
-          "wrong_kind": TypeError}
+          "wrong_kind": TypeError, "int_data": "ok", "f32_data": "ok", "neg_beta": "ok"}
 
 
 def work_front(task):
@@ -221,6 +238,22 @@ def work_kernels(task):
                 base[key] = th
             elif base[key].tobytes() != th.tobytes() and not np.allclose(base[key], th, rtol=1e-9, atol=1e-12):
                 acc.fail(case, "read-only / Fortran-ordered inputs give a different Theta")
+    # ---- optimiser entry point, failing call: a covariance with a non-finite entry
+    for (order, ro) in itertools.product(("C", "F"), (False, True)):
+        Sbad = np.eye(3)
+        Sbad[0, 1] = Sbad[1, 0] = np.nan
+        args = {"S": form(Sbad, order, ro)}
+        before = {k: snap(v) for k, v in args.items()}
+        acc.n += 1
+        try:
+            admm.admm_optimize_theta(args["S"], 0.11, 1, 3, max_iterations=20)
+        except Exception:
+            pass
+        ch = diff_names(before, args)
+        if ch:
+            acc.fail({"kind": "admm_nan", "order": order, "readonly": ro, "mode": mode},
+                     "optimiser entry point modified a covariance holding a NaN (failing call)")
+        acc.nontrivial += 1
     # ---- labelling step
     for (T, K) in ((1, 1), (4, 2), (5, 3)):
         t0 = rng.integers(0, 4, size=(T, K)).astype(np.float64)
@@ -319,7 +352,7 @@ def run(ctx):
     ctx.cov["evaluations_jit"] = ctx.cov["evaluations"] - n0
     ctx.cov["exhaustive"] = True
     ctx.cov["rule"] = (
-        "front ends {single, joint} x outcome {success, no-donor RuntimeError, optimiser fault at (round 0, cluster 1) "
+        "front ends {single, joint} x outcome {success, int64 / float32 series, a per-pair cost with a negative entry, no-donor RuntimeError, optimiser fault at (round 0, cluster 1) "
         "and (round 1, cluster 0), wrong-kind TypeError} x (lambda matrix|scalar, beta vector|scalar) x eps {0,1e-2} x "
         "order {C,F} x {writable, read-only}; optimiser entry point x 4 shapes x order x writability x lambda form "
         "x rho {1,10} x callback; labelling step x 3 shapes x order x writability x beta form; statistics/optimise/"
